@@ -65,6 +65,11 @@ def _rw(write, read, pool=None):
     inp = io.BytesIO(data + JUNK)
     r = _DateTimeZoneReader._ctor(inp, tuple(pool) if pool is not None else None)
     try:
+        # the reader's one-byte lookahead (has_more_data) must be transparent: asked before half of the reads (chosen by
+        # the bytes themselves, so that the run is reproducible), it must neither lose nor duplicate a byte
+        if (sum(data) + len(data)) % 2 == 0:
+            ev["probed"] = True
+            ev["more"] = bool(r.has_more_data) and bool(r.has_more_data)
         ev["_back"] = read(r)
         ev["consumed"] = inp.tell()
     except Exception as e:  # noqa: BLE001
@@ -305,7 +310,34 @@ def reencode_events(args) -> list:
             typ = rd.read_byte()
             body_at = inp.tell() - 1
             if typ != 2:
-                continue  # fixed zones are not rule-based
+                # a fixed zone: offset, then (when bytes remain) the interval name as a pool index
+                from pyoda_time.time_zones._fixed_date_time_zone import _FixedDateTimeZone
+
+                body = raw[body_at + 1:]
+                ev = {"op": "fixed_zone", "id": zid, "file": path.split("/")[-1], "pool": len(pool), "bytes": list(body), "cps_id": [ord(ch) for ch in zid]}
+
+                def varint_at(p0):
+                    v, sh = 0, 0
+                    for b0 in body[p0:]:
+                        v |= (b0 & 0x7F) << sh
+                        sh += 7
+                        if not b0 & 0x80:
+                            return v
+                    return -1
+
+                # for every byte position: the count a varint starting there denotes and the pool string it indexes (the spec
+                # knows where the offset ends and picks the entry for that position)
+                ev["index_at"] = [varint_at(p0) for p0 in range(len(body))]
+                ev["pool_at"] = [[ord(ch) for ch in pool[i]] if 0 <= i < len(pool) else [] for i in ev["index_at"]]
+                try:
+                    fz = _FixedDateTimeZone.read(rd, zid)
+                    ev["offset"] = fz.offset.seconds
+                    ev["name"] = [ord(ch) for ch in fz.name]
+                    ev["consumed"] = inp.tell() - body_at - 1
+                except Exception as e:  # noqa: BLE001
+                    ev["exc"] = type(e).__name__
+                evs.append(ev)
+                continue
             z = _PrecalculatedDateTimeZone._read(rd, zid)
             out = io.BytesIO()
             w = _DateTimeZoneWriter._ctor(out, list(pool))
